@@ -113,4 +113,18 @@ PROPS = {
         ],
         trusted=["container/heap and Go map semantics below the modelled set/minimum abstraction", "hashicorp/raft: one totally ordered log applied in order on every server"],
     ),
+    "C17": dict(
+        lean_modules=["Liftbridge.Props.C17"],
+        gen_sources=["server/encryption/localkey_handler.go"],
+        go_pkg="./server/encryption", test="TestVerifC17",
+        timeout={"quick": 600, "thorough": 5400},
+        level="proof",
+        assumptions=[
+            "cryptography is a parameter: KWP wrap/unwrap, AES key setup and AES-GCM seal/open are uninterpreted functions; read_seal assumes Sound (unwrap(wrap k) = k, open(seal p) = p, |wrap k| < 256), the tamper / wrong-key theorems assume Authentic (idealised INT-CTXT: everything not produced under the keys is rejected) - hypotheses of the theorems, not axioms",
+            "confidentiality (stored bytes never contain the value) and the real tamper evidence of AES-GCM / RFC 5649 are NOT proved: covered empirically by the harness on the real primitives (every single-byte change, every truncation, different master key, containment of value and data key)",
+            "the model `read` is the REPAIRED Read (fixes/C17-read-bounds.diff); on a tree without the three length checks the extractor reports them lost and the harness reports the panics",
+            "Go slicing semantics as modelled in Liftbridge/Base.lean; s[a:b] bounded by cap and s[a:] by len give the same panic condition for the two consecutive slices of Read/decryptData (exercised with spare-capacity slices)",
+        ],
+        trusted=["Go crypto/aes, crypto/cipher and tink kwp/subtle", "wrapped-key size formula copied from tink (compared with wrapDEK on every run)"],
+    ),
 }
